@@ -354,7 +354,42 @@ def api_list():
         ins = dict(image=img, geometry_start=(geo.x0, geo.y0, geo.sma, geo.eps, geo.pa), data=D)
         return ins, lambda: Ellipse(img, geo).fit_image(maxsma=8.0, maxit=10)
 
-    return [('aperture', aperture), ('aperture-nddata', aperture_nddata), ('background', background), ('segmentation', segmentation),
+    def epsf(sc, D, E, M, U):
+        from astropy.nddata import NDUncertainty
+
+        class Weights(NDUncertainty):
+            @property
+            def uncertainty_type(self):
+                return 'weights'
+
+            def _data_unit_to_uncertainty_unit(self, value):
+                return None
+
+            def _propagate_add(self, *a):
+                pass
+            _propagate_subtract = _propagate_multiply = _propagate_divide = _propagate_add
+        raw = np.asarray(np.ma.getdata(getattr(D, 'value', D)), float)
+        raw = np.where(np.isfinite(raw), raw, 0.0)
+        w = np.ones(raw.shape)
+        nd_w = NDData(raw, uncertainty=Weights(w), mask=M)
+        nd_s = NDData(raw, uncertainty=StdDevUncertainty(np.abs(np.asarray(np.ma.getdata(getattr(E, 'value', E)), float)) + 0.1), mask=M)
+        tbl = Table({'x': [p[0] for p in sc['pos']], 'y': [p[1] for p in sc['pos']]})
+        meta = {'telescope': 'mine'}
+        ins = dict(nddata_weights=nd_w, nddata_stddev=nd_s, catalog=tbl, meta=meta)
+
+        def go():
+            st = ppsf.extract_stars(nd_w, tbl, size=9)
+            ppsf.extract_stars(nd_s, tbl, size=9)
+            models = []
+            for i, (x, y) in enumerate([(0, 0), (20, 0), (0, 20), (20, 20)]):
+                m_ = ppsf.ImagePSF(np.asarray(st[0].data) if len(st) else np.ones((9, 9)))
+                m_.x_0, m_.y_0 = x, y
+                models.append(m_)
+            ins['epsfs'] = models
+            ppsf.grid_from_epsfs(models, meta=meta)
+        return ins, go
+
+    return [('epsf', epsf), ('aperture', aperture), ('aperture-nddata', aperture_nddata), ('background', background), ('segmentation', segmentation),
             ('detection', detection), ('centroids', centroids), ('profiles', profiles), ('calc_total_error', total_error), ('psf', psf),
             ('make_model_image', render), ('morphology', morphology), ('isophote', isophote)]
 
